@@ -283,3 +283,105 @@ def lower_layer_aliasing(case, ctx):
     nl.get_derivative_wrt_unnormed_features(X, dv)
     ctx.equal_bits(X, X0, ("normalizer_bwd", "input_modified"))
     ctx.equal_bits(dv, dv0, ("normalizer_bwd", "cotangent_modified"))
+
+
+# ------------------------------------------------------------------------------------------------
+# M-generator: histories on one live NLDF feature generator (the object below the integrator)
+
+@st.composite
+def st_gen_history(draw):
+    nldf = draw(G.st_nldf())
+    mol = draw(G.st_mol(min_atoms=1, max_atoms=2, elements=["H", "He", "Li", "Be", "C", "N", "O", "F"], max_elec=12,
+                        levels=(0,), bases=("sto-3g", "6-31g"), min_elec=2))
+    nspin = draw(st.sampled_from([1, 2]))
+    ops = []
+    have = set()
+    for _ in range(draw(st.integers(3, 7))):
+        spin = draw(st.integers(0, nspin - 1))
+        if spin not in have or draw(st.sampled_from(range(3))) == 0:
+            ops.append({"op": "features", "spin": spin, "seed": draw(st.integers(0, 10**6))})
+            have.add(spin)
+        else:
+            ops.append({"op": "potential", "spin": spin, "seed": draw(st.integers(0, 10**6))})
+    if not any(o["op"] == "potential" for o in ops):
+        ops.append({"op": "potential", "spin": ops[0]["spin"], "seed": 7})
+    return {"mol": mol, "nldf": nldf, "nspin": nspin, "ops": ops, "plan_type": draw(st.sampled_from(["gaussian", "spline"])),
+            "interp": draw(st.sampled_from(["onsite_direct", "onsite_spline"]))}
+
+
+@subcheck("C09", "nldf_generator_history", st_gen_history, quick=48, thorough=600, tolerances=TOL, shrink=False,
+          rule="stateful: drawn histories (3-8 operations) on ONE live PyscfNLDFGenerator (all NLDF versions, both plan types and "
+               "fast interpolators, nspin 1/2): get_features(rho_k, spin) for generated densities (PSD density matrices of the "
+               "molecule) and get_potential(v_k, spin) for generated cotangents, including several potentials after one "
+               "feature call and interleaved spins; oracle: a freshly built generator that has seen only get_features of the "
+               "density currently cached for that spin and then this one get_potential; results equal to 1e-12 of the largest "
+               "entry, caller-owned rho and v arrays bit-identical; non-trivial = a potential that is not the first one after "
+               "its feature call, or a feature call for another spin in between")
+def nldf_generator_history(case, ctx):
+    from pyscf.dft import numint as pnumint
+
+    from ciderpress.pyscf.nldf_convolutions import PyscfNLDFGenerator
+
+    mol = G.build_mol(case["mol"])
+    settings = G.build_nldf(case["nldf"])
+    grids = _make_grids(mol, 0, True)
+    nspin = case["nspin"]
+    ao = pnumint.eval_ao(mol, grids.coords, deriv=1)
+    nrow = 4 if case["nldf"]["level"] == "GGA" else 5
+
+    def make_gen():
+        gen = PyscfNLDFGenerator.from_mol_and_settings(mol, grids.grids_indexer, nspin, settings, plan_type=case["plan_type"],
+                                                       interpolator_type=case["interp"])
+        gen.interpolator.set_coords(grids.coords)
+        return gen
+
+    def rho_of(seed):
+        dm = G.build_dm(mol, {"seed": seed, "uks": False, "mix": 0.3, "extra": 2})[0][0]["dm"]
+        r = pnumint.eval_rho(mol, ao, dm, xctype="MGGA", with_lapl=False)[:nrow]
+        return np.ascontiguousarray(r / nspin)
+
+    gen = make_gen()
+    ctx.event("nldf=%s/%s/%s/%s" % (case["nldf"]["version"], case["nldf"]["level"], case["plan_type"], case["interp"]))
+    cached = {}
+    since_feat = {}
+    nontrivial = False
+    hist = []
+    for op in case["ops"]:
+        sp = op["spin"]
+        if op["op"] == "features":
+            rho = rho_of(op["seed"])
+            r0 = rho.copy()
+            f = np.array(gen.get_features(rho, spin=sp), copy=True)
+            ctx.equal_bits(rho, r0, ("generator", "rho_modified_by_get_features"))
+            fresh = make_gen()
+            ff = np.array(fresh.get_features(rho.copy(), spin=sp), copy=True)
+            ctx.close(f, ff, ("generator", "features_vs_fresh", "after:" + (hist[-1] if hist else "start")), rtol=1e-12,
+                      scale=float(np.max(np.abs(ff))) + 1e-300, history=hist)
+            cached[sp] = rho
+            since_feat[sp] = 0
+            for other in since_feat:
+                if other != sp:
+                    since_feat[other] = max(since_feat[other], 0) + 0
+            hist.append("F%d" % sp)
+            continue
+        rho = cached[sp]
+        nfeat = settings.nfeat
+        v = rng_from(op["seed"]).normal(size=(nfeat, rho.shape[1]))
+        v0 = v.copy()
+        r0 = rho.copy()
+        p = np.array(gen.get_potential(v, spin=sp), copy=True)
+        ctx.equal_bits(v, v0, ("generator", "vfeat_modified_by_get_potential"))
+        ctx.equal_bits(rho, r0, ("generator", "rho_modified_by_get_potential"))
+        fresh = make_gen()
+        fresh.get_features(rho.copy(), spin=sp)
+        pf = np.array(fresh.get_potential(v0.copy(), spin=sp), copy=True)
+        kind = "first" if since_feat[sp] == 0 and hist[-1] == "F%d" % sp else "repeat_or_interleaved"
+        if kind != "first":
+            nontrivial = True
+        ctx.event("potential:" + kind)
+        ctx.close(p, pf, ("generator", "potential_vs_fresh", kind), rtol=1e-12, scale=float(np.max(np.abs(pf))) + 1e-300,
+                  history=hist)
+        since_feat[sp] += 1
+        hist.append("P%d" % sp)
+    if nontrivial:
+        ctx.nontrivial([G.mol_class(case["mol"]), case["nldf"]["version"], case["nldf"]["level"], case["plan_type"], case["interp"], hist])
